@@ -67,6 +67,7 @@ var c20Faults = []c20Fault{
 	{"call with too few arguments", nil, "return two()", "incorrect args"},
 	{"failing native", []string{"k := 0 - 1 - n*0"}, "return len(strings.Repeat(\"x\", k))", "Repeat"},
 	{"negative shift count", []string{"a := 1", "k := 0 - 3"}, "return a << k", "negative shift"},
+	{"implicitly repeated constant expression (goatlang evaluates constants at run time)", []string{"const (", "\tq0 = 100 / (2 - iota)"}, "\tq1", "divide by zero"},
 }
 
 func c20Generate(seed int64, idx int) c20Case {
@@ -213,7 +214,11 @@ func c20Generate(seed int64, idx int) c20Case {
 			}
 			// the fault may sit inside a loop / branch
 			var line int
-			switch rng.Intn(4) {
+			placement := rng.Intn(4)
+			if strings.HasPrefix(fault.name, "implicitly repeated constant") {
+				placement = 3 // the block stays in one piece
+			}
+			switch placement {
 			case 0:
 				g.emit(file, "\tfor q := 0; q < 2; q++ {")
 				line = g.emit(file, "\t\t%s", fault.stmt)
@@ -224,6 +229,13 @@ func c20Generate(seed int64, idx int) c20Case {
 				g.emit(file, "\t}")
 			default:
 				line = g.emit(file, "\t%s", fault.stmt)
+			}
+			if strings.HasPrefix(fault.name, "implicitly repeated constant") {
+				// the repeated expression is the one written on q0's line; it fails for iota == 2
+				g.emit(file, "\t\tq2")
+				g.emit(file, "\t)")
+				g.emit(file, "\t_, _, _ = q0, q1, q2")
+				line -= 1
 			}
 			g.emit(file, "\treturn n")
 			g.emit(file, "}")
@@ -352,6 +364,10 @@ func c20Run(c c20Case, optimize bool) (string, core.Outcome) {
 	}
 	if c.Entry == "call" {
 		o = m.Call("main.main", 0)
+		// the same failure once more on the same VM: nothing of the first failure's chain is left over
+		if o2 := m.Call("main.main", 0); o.Err != "" && o2.Err != o.Err {
+			o.Err = "SECOND CALL DIFFERS\nfirst:\n" + o.Err + "\nsecond:\n" + o2.Err
+		}
 	} else {
 		o = m.Eval(sys, "main()")
 		o.Err = strings.TrimPrefix(o.Err, "error in run: ")
